@@ -5,15 +5,24 @@ import os
 
 H = os.path.dirname(os.path.dirname(os.path.abspath(__file__)))
 
-# id -> (technique, level text, level note, DESIGN section)
-CHECKS = {
-    "C20": ("runtime reference-model monitor + call-history monitor over generated structures",
-            "Held on every generated structure/history of the run: random nested structures with tensor and container "
-            "aliasing plus all set partitions of <=5 slots over fixed skeletons, each driven through a random history of "
-            "Packer calls and compared slot-by-slot with an independent reference model; input, Packer and earlier "
-            "results re-snapshotted at the quiescent point.",
-            "Trusts the 60-line reference model in vf/props/c20.py and torch tensor identity/equality.", "4/C20"),
-}
+def load_checks():
+    """each vf/props/cXX.py declares TECHNIQUE, LEVEL_TEXT, LEVEL_NOTE (parsed textually: no torch import needed)"""
+    import ast, glob
+    out = {}
+    for path in sorted(glob.glob(os.path.join(H, "vf", "props", "c[0-9][0-9].py"))):
+        pid = os.path.basename(path)[:-3].upper()
+        tree = ast.parse(open(path).read())
+        vals = {}
+        for node in tree.body:
+            if isinstance(node, ast.Assign) and len(node.targets) == 1 and isinstance(node.targets[0], ast.Name):
+                if node.targets[0].id in ("TECHNIQUE", "LEVEL_TEXT", "LEVEL_NOTE", "LEVEL", "REGISTERED"):
+                    vals[node.targets[0].id] = ast.literal_eval(node.value)
+        if vals.get("REGISTERED", True) and "TECHNIQUE" in vals:
+            out[pid] = (vals["TECHNIQUE"], vals["LEVEL_TEXT"], vals["LEVEL_NOTE"], "4/" + pid, vals.get("LEVEL", "exploration"))
+    return out
+
+
+CHECKS = load_checks()
 
 NOT_YET = "check not built yet in this revision of /verif (work in progress; the property is decidable by runtime monitoring, see DESIGN.md section 4)"
 
@@ -24,7 +33,7 @@ def main():
     for pid in ids:
         if pid not in CHECKS:
             continue
-        tech, text, note, ref = CHECKS[pid]
+        tech, text, note, ref, level = CHECKS[pid]
         checks.append({
             "property_id": pid,
             "quick_cmd": "./check %s quick" % pid,
@@ -32,7 +41,7 @@ def main():
             "evidence_file": "/verif/evidence/%s.json" % pid,
             "replay_cmd_template": "./check %s --replay {path}" % pid,
             "engine": "vf",
-            "level_claimed": {"category": "exploration", "text": text, "design_ref": "DESIGN.md section " + ref},
+            "level_claimed": {"category": level, "text": text, "design_ref": "DESIGN.md section " + ref},
             "level_note": note,
             "technique": tech,
         })
